@@ -219,32 +219,42 @@ Definition chk_counter (c : diff * path * bool * bool * list centry) :=
   cl_eqb (create_parent_deletion_counter_diff default_counters 20 d p) cd.
 '''
 
-def coq_eval(groups):
-    """groups: list of (name, checker, type, [coq terms]).  Returns {name: [bad indices]} or raises."""
+def coq_eval_one(name, chk, ty, items):
+    """one coqc run: returns the indices (within items) on which the checker is false"""
     d = tempfile.mkdtemp(prefix='nbv_c07coq_')
     try:
         src = [PRELUDE]
-        for name, chk, ty, items in groups:
-            # chunked definitions keep each term small for the parser
-            chunks = [items[i:i + 400] for i in range(0, len(items), 400)] or [[]]
-            for j, ch in enumerate(chunks):
-                src.append('Definition %s_%d : list (%s) := %s.' % (name, j, ty, clist(ch)))
-            src.append('Definition %s_all := %s.' % (name, ' ++ '.join('%s_%d' % (name, j) for j in range(len(chunks)))))
-            src.append('Definition res_%s := Eval vm_compute in (bad %s %s_all).' % (name, chk, name))
-            src.append('Print res_%s.' % name)
+        chunks = [items[i:i + 400] for i in range(0, len(items), 400)] or [[]]      # small definitions keep the parser fast
+        for j, ch in enumerate(chunks):
+            src.append('Definition %s_%d : list (%s) := %s.' % (name, j, ty, clist(ch)))
+        src.append('Definition %s_all := %s.' % (name, ' ++ '.join('%s_%d' % (name, j) for j in range(len(chunks)))))
+        src.append('Definition res_%s := Eval vm_compute in (bad %s %s_all).' % (name, chk, name))
+        src.append('Print res_%s.' % name)
         f = os.path.join(d, 'cases.v'); open(f, 'w').write('\n'.join(src) + '\n')
         p = subprocess.run(['timeout', '900', 'coqc', '-Q', core.COQ, 'NB', f], capture_output=True, text=True, cwd=d)
         if p.returncode != 0:
-            raise RuntimeError('coqc failed on generated cases: ' + (p.stderr + p.stdout)[-1500:])
-        out = {}
-        for name, _, _, _ in groups:
-            m = re.search(r'res_%s\s*=\s*(\[[^\]]*\]|nil)' % name, p.stdout)
-            if not m: raise RuntimeError('cannot parse coqc output for ' + name + ': ' + p.stdout[-800:])
-            body = m.group(1)
-            out[name] = [] if body in ('nil', '[]') else [int(x) for x in re.findall(r'\d+', body)]
-        return out
+            raise RuntimeError('coqc failed on generated cases (%s): ' % name + (p.stderr + p.stdout)[-1500:])
+        m = re.search(r'res_%s\s*=\s*(\[[^\]]*\]|nil)' % name, p.stdout)
+        if not m: raise RuntimeError('cannot parse coqc output for ' + name + ': ' + p.stdout[-800:])
+        body = m.group(1)
+        return [] if body in ('nil', '[]') else [int(x) for x in re.findall(r'\d+', body)]
     finally:
         shutil.rmtree(d, ignore_errors=True)
+
+def coq_eval(groups, per_file=2500, workers=6):
+    """groups: list of (name, checker, type, [coq terms]).  Returns {name: [bad indices]} or raises.
+    Large groups are split over several coqc processes (memory), run in parallel."""
+    from concurrent.futures import ThreadPoolExecutor
+    jobs = []
+    for name, chk, ty, items in groups:
+        for off in range(0, max(1, len(items)), per_file):
+            jobs.append((name, chk, ty, items[off:off + per_file], off))
+    with ThreadPoolExecutor(max_workers=workers) as ex:
+        res = list(ex.map(lambda j: coq_eval_one(*j[:4]), jobs))
+    out = {g[0]: [] for g in groups}
+    for (name, _, _, _, off), bad in zip(jobs, res):
+        out[name] += [off + i for i in bad]
+    return out
 
 # ------------------------------------------------------------------ case generation
 def render_texts(chk, tier):
